@@ -32,6 +32,7 @@ void work_shared_destroy(WorkShared* s);
 // Executes all ops of one task (task index) of the plan on the calling thread.
 void work_exec_task(const Plan& plan, int task, WorkShared* shared, TaskOut& out, int model);
 int work_has_usingz();
+void work_warmup();
 const char* work_op_names();   // newline separated list of known op kinds
 
 } // namespace sim
